@@ -632,7 +632,9 @@ def fam_stream(seed, i):
         w["sleep"] = 2
     cnt = [0]
     for c in names:
-        sc["clients"][c] = Prog(rng, c, handles.get(c, {}), w, scripts, cnt).run(rng.randint(1, 8))
+        p = Prog(rng, c, handles.get(c, {}), w, scripts, cnt)
+        p.cancel_p = 0.2          # calls / sends given up by the client while the actor is busy with an item
+        sc["clients"][c] = p.run(rng.randint(1, 8))
     return sc
 
 
